@@ -116,7 +116,7 @@ pub fn run(tier: Tier, seed0: u64) -> i32 {
     report.count("seed_cases", seed_cases.load(Ordering::Relaxed));
 
     // (3) PINs
-    let mut pins: Vec<u32> = (0..=20_000).collect();
+    let mut pins: Vec<u32> = (0..=tier.pick(200_000u32, 1_000_000u32)).collect();
     let mut p10 = 1u64;
     for _ in 0..10 {
         for d in -64i64..=64 {
